@@ -331,7 +331,7 @@ Definition qsel_toks (kin : kctx) (og0 : origin) (walias subquery pv : bool) (al
   let k := defaults c kin in
   let og := origin_after c kin og0 in
   let fnames := fst (name_from sub_count 0 from) in
-  let jnames := fst (name_joins (base_tables from) (src_names from fnames ++ map fst withs) (snd (name_from sub_count 0 from)) joins) in
+  let jnames := fst (name_joins (base_tables from) (src_names from fnames) (snd (name_from sub_count 0 from)) joins) in
   let srcs := src_refs from fnames ++ src_refs (map (fun j => snd (fst j)) joins) jnames in
   let wns := negb (Nat.eqb (List.length joins) 0) || Nat.ltb 1 (List.length from)
              || first_is_builder from || foreign_ref srcs srcs wheres in
